@@ -4,7 +4,8 @@ Decided: renew-or-add structure, the no-backdating guard and its call sites,
 hashed lease secrets on the newest container schemas, agreement of the lease
 struct formats with their pack/unpack sites and the hash width, hashing of candidate secrets, the lease
 slot layout and its count/offset field accessors, renewal independent of available space, slot-numbered
-lease enumeration, and mutable slot occupancy (empty marker, where a new lease may go).
+lease enumeration, mutable slot occupancy (empty marker, where a new lease may go), the intact move of the
+extra-lease block when a mutable container grows, and that a matched renew secret never ends in 'no such lease'.
 DESIGN.md section 5, C25.  (Lease isolation from data writes is C23.2/C23.6.)"""
 from sa.h import *
 
@@ -46,7 +47,14 @@ EXPLANATION = (
     "(9) mutable slot occupancy: _read_lease_record returns None only past a test that found the unserialized record's owner_num "
     "== 0 and otherwise returns that record; _get_first_empty_lease_slot returns only a slot whose _read_lease_record(f, slot) is None "
     "held in the same iteration; MutableShareFile.add_lease writes the given lease, on every normal path, to the slot "
-    "_get_first_empty_lease_slot found (checked is not None) or to slot _get_num_lease_slots(f).  "
+    "_get_first_empty_lease_slot found (checked is not None) or to slot _get_num_lease_slots(f); "
+    "(10) leases survive container growth: MutableShareFile._change_container_size reads count-field-width + num_extra_leases * LEASE_SIZE "
+    "bytes immediately after seek(_read_extra_lease_offset(f)) and before any modification of the file, writes exactly those bytes at the "
+    "position it hands to _write_extra_lease_offset, writes nothing afterwards that may overlap the copy (only the fixed header fields, or a "
+    "fill of at most new - position bytes: old and new block overlap when the container grows by less than the block size), and no call that "
+    "modified the file returns without the copy and the header update; "
+    "(11) renew_lease (both containers) reaches no raise statement once some lease's is_renew_secret(renew_secret) held (boolean flag locals "
+    "are followed), whether or not the expiry had to move - otherwise add_or_renew_lease would add a duplicate for a known secret.  "
     "Undecided: hash strength, clock values, byte-level file effects; whether MutableShareFile.add_lease may refuse for lack of "
     "space when an empty slot could be reused, and the NoSpace comparison of ShareFile.add_or_renew_lease (resource questions, not "
     "part of the stated property); the values of EXTRA_LEASE_OFFSET / ShareFile._lease_offset and which schema an existing container "
@@ -226,6 +234,33 @@ def unpositioned_accesses(fn, fp, want, kinds):
     return acc, bad, len(visited)
 
 
+def match_flow(cfg, mset, gate=None):
+    """Explore with the state (a match edge of `mset` {(node id, 'T'/'F')} - or an edge with gate(node, label) - was passed,
+    known boolean flag locals).  Branches on a
+    flag local whose constant value is known are followed only in the feasible direction, so that `found = True; break` ...
+    `if not found: raise` is understood.  Exceptional edges are followed only out of explicit raise statements."""
+    def tr(n, lab, nxt, st):
+        matched, flags = st
+        if lab == "exc" and not (n.kind == "stmt" and isinstance(n.ast, ast.Raise)):
+            return None          # I/O failures are not the question; explicit raise statements are
+        if n.kind == "test" and isinstance(n.ast, ast.Name) and isinstance(lab, tuple):
+            known = dict(flags).get(n.ast.id)
+            if known is not None and known != (lab[0] == "T"):
+                return None      # boolean flag with a known value: infeasible branch
+        if n.kind == "stmt" and isinstance(n.ast, ast.Assign) and len(n.ast.targets) == 1 and isinstance(n.ast.targets[0], ast.Name):
+            v = n.ast.value
+            fl = dict(flags)
+            if isinstance(v, ast.Constant) and isinstance(v.value, bool):
+                fl[n.ast.targets[0].id] = v.value
+            else:
+                fl.pop(n.ast.targets[0].id, None)
+            flags = tuple(sorted(fl.items()))
+        if (isinstance(lab, tuple) and (n.id, lab[0]) in mset) or (gate is not None and lab != "exc" and gate(n, lab)):
+            matched = True
+        return (matched, flags)
+    return explore(cfg, (False, ()), tr)
+
+
 # -------------------------------------------------------------------- rules
 def run(ctx: Context):
     idx = ctx.idx
@@ -373,15 +408,23 @@ def run(ctx: Context):
                         and dn is not None and fnm.rd.get(dn.id, {}).get(lv) == frozenset([head.id])
                     r.require(okv, fn, fn.loc(wc), "the record written is %s, not lease.renew(new_expire_time) of the matched lease" % src(fn, v if v is not None else wc.args[2]))
             # normal return only after a match; IndexError otherwise
-            for (t, w) in find_path_avoiding(cfg, lambda n: n.kind == "exit", gate_edge=lambda m, lab: fnm.edge_fact(m, lab) == match):
-                r.violation(fn, fn.loc(), "renew_lease can return normally although no lease matched the renew secret (path: %s)" % w.brief(), w)
+            mset = {(m.id, lab[0]) for m in cfg.nodes for (_d, lab) in cfg.succ[m.id] if isinstance(lab, tuple) and fnm.edge_fact(m, lab) == match}
+            mvis, mpar = match_flow(cfg, mset)
+            for (nid, st) in sorted(mvis, key=lambda x: (x[0], str(x[1]))):
+                if cfg.nodes[nid].kind == "exit" and not st[0]:
+                    w = witness(cfg, mpar, (nid, st))
+                    r.violation(fn, fn.loc(), "renew_lease can return normally although no lease matched the renew secret (path: %s)" % w.brief(), w)
+                    break
             r.require(bool(cfg.find(raises("IndexError"))), fn, fn.loc(), "renew_lease no longer raises IndexError for an unknown secret")
             # a matched lease with a later expiry IS renewed: only 'new <= current' may skip the write
             notlater = {("<=", new, "%s.get_expiration_time()" % lv), ("<", new, "%s.get_expiration_time()" % lv)}
-            for (t, w) in find_path_avoiding(cfg, lambda n: n.kind == "exit", gate_node=lambda m: m in wn,
-                                             gate_edge=lambda m, lab: fnm.edge_fact(m, lab) in notlater):
-                r.violation(fn, fn.loc(), "renew_lease can return without extending a matched lease whose new expiration time is "
-                            "later (path: %s)" % w.brief(), w)
+            evis, epar = match_flow(cfg, (), gate=lambda m, lab: m in wn or fnm.edge_fact(m, lab) in notlater)
+            for (nid, st) in sorted(evis, key=lambda x: (x[0], str(x[1]))):
+                if cfg.nodes[nid].kind == "exit" and not st[0]:
+                    w = witness(cfg, epar, (nid, st))
+                    r.violation(fn, fn.loc(), "renew_lease can return without extending a matched lease whose new expiration time is "
+                                "later (path: %s)" % w.brief(), w)
+                    break
             r.count(len(cfg.nodes) * 3)
         # nobody passes allow_backdate
         n_calls = 0
@@ -1507,26 +1550,7 @@ def run(ctx: Context):
             r.site(fn, medges[0][0].ast, "secret match")
             mset = {(n.id, lab[0]) for (n, lab) in medges}
 
-            def tr11(n, lab, nxt, st, mset=mset):
-                matched, flags = st
-                if lab == "exc" and not (n.kind == "stmt" and isinstance(n.ast, ast.Raise)):
-                    return None          # I/O failures are not the question; explicit raise statements are
-                if n.kind == "test" and isinstance(n.ast, ast.Name) and isinstance(lab, tuple):
-                    known = dict(flags).get(n.ast.id)
-                    if known is not None and known != (lab[0] == "T"):
-                        return None      # boolean flag with a known value: infeasible branch
-                if n.kind == "stmt" and isinstance(n.ast, ast.Assign) and len(n.ast.targets) == 1 and isinstance(n.ast.targets[0], ast.Name):
-                    v = n.ast.value
-                    fl = dict(flags)
-                    if isinstance(v, ast.Constant) and isinstance(v.value, bool):
-                        fl[n.ast.targets[0].id] = v.value
-                    else:
-                        fl.pop(n.ast.targets[0].id, None)
-                    flags = tuple(sorted(fl.items()))
-                if isinstance(lab, tuple) and (n.id, lab[0]) in mset:
-                    matched = True
-                return (matched, flags)
-            vis, par = explore(cfg, (False, ()), tr11)
+            vis, par = match_flow(cfg, mset)
             r.count(len(vis))
             for (nid, st) in sorted(vis, key=lambda x: (x[0], str(x[1]))):
                 m = cfg.nodes[nid]
